@@ -449,6 +449,16 @@ func (fr *Frame) applyContract(spec *FuncSpec, cc *ssa.CallCommon, st *State, po
 		c := &SpecCtx{vc: vc, env: env, st: cur, old: oldSt, pkg: spec.Pkg}
 		return c
 	}
+	for _, l := range spec.Lets {
+		t, err := mk(oldSt).eval(l.E)
+		if err != nil {
+			vc.unsupportedf("let of %s: %v", spec.Key, err)
+			continue
+		}
+		n := vc.fresh("let_" + l.Name)
+		vc.define(n, t.Sort, t.S)
+		env[l.Name] = Term{n, t.Sort, t.T}
+	}
 	for _, rq := range spec.Requires {
 		g, err := mk(st).evalBool(rq.E)
 		if err != nil {
@@ -741,6 +751,9 @@ func (fr *Frame) runDefers(st *State, panicking bool) {
 		d := ds[i]
 		// the defer must dominate the current point to have been registered
 		if fr.curBlock != nil && d.block != fr.curBlock && !d.block.Dominates(fr.curBlock) && fr.curBlock != fr.fn.Recover {
+			if !blockReaches(d.block, fr.curBlock) {
+				continue // this defer statement is not on any path to the current point
+			}
 			vc.unsupportedf("conditionally registered defer")
 		}
 		cc := d.instr.Common()
@@ -1106,4 +1119,30 @@ func (fr *Frame) allocBound(ins *ssa.MakeSlice, n string) {
 	}
 	b = ctx.coerceLit(b, vc.isort())
 	vc.oblige("alloc", fr.tagsFor(fr.spec.AllocBound.Tags), fr.curReach, vc.ile(n, b.S), "allocation size bounded by "+fr.spec.AllocBound.Text, ins.Pos(), fr.spec.AllocBound)
+}
+
+func blockReaches(from, to *ssa.BasicBlock) bool {
+	seen := map[*ssa.BasicBlock]bool{}
+	var dfs func(b *ssa.BasicBlock) bool
+	dfs = func(b *ssa.BasicBlock) bool {
+		if b == to {
+			return true
+		}
+		if seen[b] {
+			return false
+		}
+		seen[b] = true
+		for _, s := range b.Succs {
+			if dfs(s) {
+				return true
+			}
+		}
+		return false
+	}
+	for _, s := range from.Succs {
+		if dfs(s) {
+			return true
+		}
+	}
+	return false
 }
